@@ -236,10 +236,36 @@ def run_job(job):
     raise KeyError(api)
 
 
+def module_state():
+    """every module-level dict / list / set of the package (Determinism.tla's `reg`: process-wide tables), as name -> digest"""
+    snap = {}
+    for name, mod in sorted(sys.modules.items()):
+        if not name.startswith("cdd.") or name.startswith("cdd.tests") or mod is None:
+            continue
+        for attr, val in sorted(vars(mod).items()):
+            if attr.startswith("__") or not isinstance(val, (dict, list, set)):
+                continue
+            try:
+                body = repr(sorted(map(repr, val.items()))) if isinstance(val, dict) else repr(sorted(map(repr, val)))
+            except Exception:  # noqa
+                continue
+            snap["{}.{}".format(name, attr)] = hashlib.sha256(body.encode("utf-8", "replace")).hexdigest()[:16]
+    return snap
+
+
 def main():
     with open(sys.argv[1]) as f:
         jobs = json.load(f)
     out = []
+    # load what the jobs will load, so that the tables exist before the first call
+    for m in ("argparse_function.emit", "argparse_function.parse", "class_.emit", "class_.parse", "docstring.emit", "docstring.parse",
+              "function.emit", "function.parse", "json_schema.emit", "json_schema.parse", "pydantic.emit", "sqlalchemy.emit",
+              "sqlalchemy.parse", "shared.ast_utils", "shared.source_transformer"):
+        try:
+            __import__("cdd." + m)
+        except Exception:  # noqa -- C18 judges imports
+            pass
+    before = module_state()
     for job in jobs:
         try:
             with contextlib.redirect_stdout(io.StringIO()), contextlib.redirect_stderr(io.StringIO()):
@@ -248,6 +274,8 @@ def main():
             res = "raises:{}:{}".format(type(e).__name__, str(e)[:200])
         out.append({"api": job["api"], "input": job["id"], "sha": hashlib.sha256(res.encode("utf-8", "replace")).hexdigest()[:20],
                     "head": res[:300]})
+    after = module_state()
+    out.append({"api": "__state__", "changed": sorted(k for k in before if after.get(k) != before[k])})
     json.dump(out, sys.stdout)
 
 
